@@ -62,6 +62,21 @@ theorem fingerprints_def (bs : Bytes) (c : Cert) (h : parseCert bs = .ok c) :
   · rw [← h4]
   · rw [← h4, ← h3]
 
+/-- **The accepted input is determined by `Raw`** (so also by what the three certificate fingerprints hash): two
+    accepted byte strings with the same `Raw` are the same byte string.  In particular `der ++ suffix` with a
+    non-empty suffix is never accepted with the `Raw` of `der` (trailing bytes, white space included, are not
+    silently dropped). -/
+theorem raw_determines_input (a b : Bytes) (c d : Cert) (ha : parseCert a = .ok c) (hb : parseCert b = .ok d)
+    (h : c.raw.full = d.raw.full) : a = b := by
+  rw [← (raw_fields_are_subslices a c ha).1, ← (raw_fields_are_subslices b d hb).1]
+  exact h
+
+theorem suffix_not_dropped (der suffix : Bytes) (c d : Cert) (h1 : parseCert der = .ok c)
+    (h2 : parseCert (der ++ suffix) = .ok d) (hs : suffix ≠ []) : d.raw.full ≠ c.raw.full := by
+  intro h
+  have := raw_determines_input _ _ _ _ h2 h1 h
+  exact hs (List.append_right_eq_self.mp this)
+
 /-- `Version` is the encoded version plus one (on Go's 64-bit int; the only wrapping value is MaxInt64). -/
 theorem version_def (c : Cert) (h : c.tbs.version ≠ 9223372036854775807) :
     c.meta.version = c.tbs.version + 1 := by
